@@ -1,0 +1,14 @@
+//go:build verif
+
+package session
+
+// VerifHook, when set, receives every PacketStore and IDCounter operation
+// while the object's own lock is held (after the change, before it becomes
+// visible to other goroutines). It is only compiled with the verif tag.
+var VerifHook func(obj interface{}, op string, id uint16, pkt interface{})
+
+func verifHook(obj interface{}, op string, id uint16, pkt interface{}) {
+	if VerifHook != nil {
+		VerifHook(obj, op, id, pkt)
+	}
+}
